@@ -91,9 +91,17 @@ SEED_EXPECT={
  "C19-1":"R-CONST/fmtdiff","C19-2":"R-POS/cover","C19-3":"R-CONST/fmtdiff",
  "C20-1":"R-FLOW/align","C20-2":"R-FLOW/align","C20-3":"R-FLOW/soleparser",
  "C03-1":"R-ERR/E4","C03-2":"R-ERR/E4",
+ "C01-4":"R-COVER/present","C02-4":"R-CONST/topicname","C03-4":"R-FLOW/verbatim","C04-4":"R-FLOW/attr","C05-4":"R-COVER/present",
+ "C06-4":"R-PANIC/P2","C07-4":"R-FLOW/attr","C08-4":"R-WIRE/W5","C10-4":"R-LOCK/L2","C11-4":"R-TERM/T-loop","C12-4":"R-SYM/S7",
+ "C13-4":"R-PROV/V6","C14-4":"R-DET/N1","C15-4":"R-SYM/S5x","C17-4":"R-CONST/entity","C18-4":"R-PANIC/P4c","C20-4":"R-PURE",
 }
+# seeds kept on record that no rule is meant to see (see DESIGN.md §10.4): not part of the self-test
+UNCOVERED={"C09-4","C16-4","C19-4"}
 for d in sorted(glob.glob(f"{ROOT}/seeded/C*")):
     sid=os.path.basename(d); p=sid.split("-")[0]
+    if sid in UNCOVERED:
+        for f in glob.glob(f"{ROOT}/mutants/*/seed-{sid}.diff"): os.remove(f)
+        continue
     patch=open(d+"/patch.diff").read()
     chk=subprocess.run("git -C /repo apply --check -",shell=True,input=patch,capture_output=True,text=True)
     if chk.returncode!=0:
